@@ -185,6 +185,7 @@ func runHistories() {
 		}
 	}
 	n += pairHistories[types.Date]("Date", docsOf(dates))
+	n += spellings[types.Date]("Date", docsOf(dates))
 
 	hhmm := []types.HHmm{}
 	for h := 0; h <= 24; h++ {
@@ -196,6 +197,7 @@ func runHistories() {
 		}
 	}
 	n += pairHistories[types.HHmm]("HHmm", docsOf(hhmm))
+	n += spellings[types.HHmm]("HHmm", docsOf(hhmm))
 
 	// task types: every name in upper and lower case, every number
 	tt := [][]byte{}
@@ -205,10 +207,14 @@ func runHistories() {
 		tt = append(tt, []byte(fmt.Sprint(code+1)))
 	}
 	n += pairHistories[types.TaskType]("TaskType", tt)
+	n += spellings[types.TaskType]("TaskType", tt)
 
 	n += pairHistories[types.ControlState]("ControlState", docsOf([]types.ControlState{1, 2, 3}))
+	n += spellings[types.ControlState]("ControlState", docsOf([]types.ControlState{1, 2, 3}))
 	n += pairHistories[types.PIN]("PIN", docsOf([]types.PIN{0, 1, 9, 10, 7531, 99999, 100000, 999999}))
+	n += spellings[types.PIN]("PIN", docsOf([]types.PIN{0, 1, 9, 10, 7531, 99999, 100000, 999999}))
 	n += pairHistories[types.Version]("Version", docsOf([]types.Version{0x0000, 0x0662, 0x0892, 0x1000, 0x9999, 0xffff}))
+	n += spellings[types.Version]("Version", docsOf([]types.Version{0x0000, 0x0662, 0x0892, 0x1000, 0x9999, 0xffff}))
 	n += pairHistories[types.MacAddress]("MacAddress", docsOf([]types.MacAddress{
 		types.MacAddress(net.HardwareAddr{0, 0x66, 0x19, 0x39, 0x55, 0x2d}), types.MacAddress(net.HardwareAddr{0xff, 0xfe, 0xfd, 0xfc, 0xfb, 0xfa}), types.MacAddress(net.HardwareAddr{1, 2, 3, 4, 5, 6})}))
 
@@ -226,9 +232,13 @@ func runHistories() {
 		bc = append(bc, types.BroadcastAddrFrom(ap(addrs[0]).Addr(), 60000))
 		c = append(c, types.ControllerAddrFrom(ap(addrs[0]).Addr(), 60000))
 		n += pairHistories[types.BindAddr]("BindAddr", docsOf(b))
+		n += spellings[types.BindAddr]("BindAddr", docsOf(b))
 		n += pairHistories[types.BroadcastAddr]("BroadcastAddr", docsOf(bc))
+		n += spellings[types.BroadcastAddr]("BroadcastAddr", docsOf(bc))
 		n += pairHistories[types.ListenAddr]("ListenAddr", docsOf(l))
+		n += spellings[types.ListenAddr]("ListenAddr", docsOf(l))
 		n += pairHistories[types.ControllerAddr]("ControllerAddr", docsOf(c))
+		n += spellings[types.ControllerAddr]("ControllerAddr", docsOf(c))
 	}
 
 	days := func(d ...time.Weekday) types.Weekdays {
@@ -241,6 +251,7 @@ func runHistories() {
 	wk := []types.Weekdays{days(), days(time.Monday), days(time.Sunday), days(time.Monday, time.Wednesday, time.Friday), days(time.Tuesday, time.Thursday, time.Saturday),
 		days(time.Monday, time.Tuesday, time.Wednesday, time.Thursday, time.Friday, time.Saturday, time.Sunday)}
 	n += pairHistories[types.Weekdays]("Weekdays", docsOf(wk))
+	n += spellings[types.Weekdays]("Weekdays", docsOf(wk))
 
 	seg := func(v ...int) types.Segments {
 		s := types.Segments{}
@@ -251,6 +262,7 @@ func runHistories() {
 	}
 	sg := []types.Segments{seg(8, 30, 9, 45, 0, 0, 0, 0, 14, 0, 17, 0), seg(0, 0, 24, 0, 0, 0, 0, 0, 0, 0, 0, 0), seg(9, 0, 9, 0, 10, 15, 11, 15, 23, 59, 24, 0), seg(0, 0, 0, 0, 0, 0, 0, 0, 0, 0, 0, 0)}
 	n += pairHistories[types.Segments]("Segments", docsOf(sg))
+	n += spellings[types.Segments]("Segments", docsOf(sg))
 
 	cards := []types.Card{
 		{CardNumber: 8165538, From: types.ToDate(2024, 1, 1), To: types.ToDate(2024, 12, 31), Doors: map[uint8]uint8{1: 1, 2: 0, 3: 29, 4: 1}, PIN: 7531},
@@ -262,6 +274,7 @@ func runHistories() {
 	cardDocs = append(cardDocs, []byte(`{"card-number":8165540,"start-date":"2024-02-01","end-date":"2024-11-30","doors":{"2":1}}`),
 		[]byte(`{"card-number":8165541,"start-date":"2024-02-01","end-date":"2024-11-30","doors":{}}`))
 	n += pairHistories[types.Card]("Card", cardDocs)
+	n += spellings[types.Card]("Card", cardDocs)
 
 	profiles := []types.TimeProfile{
 		{ID: 29, LinkedProfileID: 3, From: types.ToDate(2024, 1, 1), To: types.ToDate(2024, 12, 31), Weekdays: wk[3], Segments: sg[0]},
@@ -272,18 +285,21 @@ func runHistories() {
 	profDocs = append(profDocs, []byte(`{"id":30,"start-date":"2024-03-01","end-date":"2024-03-31","weekdays":"Monday","segments":[{"start":"10:00","end":"11:00"}]}`),
 		[]byte(`{"id":31,"start-date":"2024-03-01","end-date":"2024-03-31"}`))
 	n += pairHistories[types.TimeProfile]("TimeProfile", profDocs)
+	n += spellings[types.TimeProfile]("TimeProfile", profDocs)
 
 	tasks := []types.Task{}
 	for code := 0; code <= 12; code++ {
 		tasks = append(tasks, types.Task{Task: types.TaskType(code), Door: uint8(code%4 + 1), From: types.ToDate(2024, 1, 1+code), To: types.ToDate(2024, 12, 31-code), Weekdays: wk[code%len(wk)], Start: types.NewHHmm(code, 59-code), Cards: uint8(code)})
 	}
 	n += pairHistories[types.Task]("Task", docsOf(tasks))
+	n += spellings[types.Task]("Task", docsOf(tasks))
 
 	dts := []types.DateTime{}
 	for _, t := range []time.Time{time.Date(2024, 3, 10, 1, 59, 59, 0, time.Local), time.Date(2024, 12, 31, 23, 59, 59, 0, time.Local), time.Date(2025, 1, 6, 0, 0, 0, 0, time.Local), time.Date(2024, 12, 31, 0, 0, 0, 0, time.Local), time.Date(1999, 12, 31, 12, 0, 0, 0, time.Local), time.Date(2000, 1, 1, 12, 0, 0, 0, time.Local)} {
 		dts = append(dts, types.DateTime(t))
 	}
 	n += pairHistories[types.DateTime]("DateTime", docsOf(dts))
+	n += spellings[types.DateTime]("DateTime", docsOf(dts))
 
 	// text parsers that hand out pointers: the result of one call is overwritten, then the same and
 	// other texts are parsed again
@@ -353,4 +369,88 @@ func lower(s string) string {
 		}
 	}
 	return string(b)
+}
+
+// escapeStrings re-spells a JSON document: every character inside every string literal (keys and
+// values) is written as a \uXXXX escape. The document denotes the same value.
+func escapeStrings(doc []byte) []byte {
+	out := []byte{}
+	in := false
+	for i := 0; i < len(doc); i++ {
+		c := doc[i]
+		switch {
+		case c == '"':
+			in = !in
+			out = append(out, c)
+		case in && c == '\\' && i+1 < len(doc):
+			out = append(out, c, doc[i+1]) // keep existing escapes as they are
+			i++
+		case in && c < 0x80:
+			out = append(out, []byte(fmt.Sprintf("\\u%04x", c))...)
+		default:
+			out = append(out, c)
+		}
+	}
+	return out
+}
+
+// spellings: a document must decode to the same value however JSON spells it - with every string
+// escaped, and with insignificant white space around and inside it.
+func spellings[T any](typ string, docs [][]byte) int64 {
+	var n int64
+	for _, d := range docs {
+		var plain T
+		if err := json.Unmarshal(append([]byte{}, d...), &plain); err != nil {
+			continue // reject-side documents are judged elsewhere
+		}
+		want := canon(plain)
+		variants := [][]byte{escapeStrings(d), append(append([]byte(" \n\t"), d...), " \r\n"...)}
+		if len(d) > 0 && (d[0] == '{' || d[0] == '[') {
+			variants = append(variants, respace(d))
+		}
+		for _, v := range variants {
+			n++
+			var got T
+			var err error
+			c := historyCase{typ, string(d), string(v), "re-spelled JSON"}
+			if p, msg, frame := vk.Guard(func() { err = json.Unmarshal(v, &got) }); p {
+				violation("C14/"+site(frame, typ+".UnmarshalJSON")+"/spelling/panic", func() string { return fmt.Sprintf("json.Unmarshal(%s) panicked: %s", v, msg) }, "history", c)
+				continue
+			}
+			// C14 promises the round trip of the library's OWN encoding and that nothing decodes to a
+			// different value; it does not promise that every other JSON spelling of a valid value is
+			// accepted (TaskType, for one, matches its names on the raw text and rejects escaped
+			// spellings). So: rejected or equal, never different.
+			if err == nil && canon(got) != want {
+				violation("C14/"+typ+".UnmarshalJSON/spelling/different-value-for-equivalent-json", func() string {
+					return fmt.Sprintf("%s decodes to %s but the equivalent document %s decodes to %s", d, want, v, canon(got))
+				}, "history", c)
+			}
+		}
+	}
+	return n
+}
+
+// respace inserts insignificant white space around every structural ':' and ',' (outside strings).
+func respace(doc []byte) []byte {
+	out := []byte{}
+	in := false
+	for i := 0; i < len(doc); i++ {
+		c := doc[i]
+		switch {
+		case c == '"':
+			in = !in
+			out = append(out, c)
+		case in && c == '\\' && i+1 < len(doc):
+			out = append(out, c, doc[i+1])
+			i++
+		case !in && c == ':':
+			out = append(out, ' ', ':', ' ')
+		case !in && c == ',':
+			out = append(out, ' ', ',', '\n', ' ')
+		default:
+			out = append(out, c)
+		}
+	}
+	return out
 }
